@@ -37,7 +37,6 @@ Proof. destruct p; try congruence; reflexivity. Qed.
 
 Section KeepW.
   Variable S : schema.
-  Hypothesis Hnka : no_keep_arg S = true.
   Variable p : pk.
   Hypothesis Hbin : p <> PCompact.
   Variable k : bk.
@@ -46,16 +45,11 @@ Section KeepW.
 
   Notation VK := (viewk S p k c).
 
-  Lemma nka_lookup n dfs ia : lookup S n = Some (DStruct dfs true ia) -> ia = false.
-  Proof.
-    intros H. unfold no_keep_arg in Hnka. rewrite forallb_forall in Hnka.
-    specialize (Hnka _ (nth_error_In _ _ H)). destruct ia; [discriminate|reflexivity].
-  Qed.
-
   Definition KRT (x : tval) : Prop :=
     wt x = true ->
     exists ss, write_val p k x c = Ok (ss, c) /\
       forall t, ttype_of x = ttype_of_ty S t -> evo_dom S t x = true -> no_retyped_variant S t x = true ->
+      arg_free S t x = true ->
       forall fuel r rcx, (vsize x <= fuel)%nat -> idle rcx ->
         gen_decode_keep S p fuel t (mkS (flat ss ++ r) rcx) = lift_view (VK t x) (mkS r rcx).
 
@@ -71,7 +65,7 @@ Section KeepW.
   Lemma KRT_leaf x : leaf x = true -> KRT x.
   Proof.
     intros Hl Hwt. destruct (roundtrip_val p k x Hwt c Hc) as (ss & Hw & _ & _).
-    exists ss. split; [exact Hw|]. intros t Hty Hd Hn fuel r rcx Hf Hi.
+    exists ss. split; [exact Hw|]. intros t Hty Hd Hn _ fuel r rcx Hf Hi.
     rewrite (leaf_decode_same S p fuel t _ x Hl Hty), (leaf_view_same S p k c t x Hl).
     destruct (evo_tolerant S p k t x Hwt Hty Hd Hn c Hc) as (ss' & Hw' & Hr').
     rewrite Hw in Hw'. injection Hw' as <-. apply Hr'; assumption.
@@ -82,13 +76,14 @@ Section KeepW.
     exists ss, write_elems p k l c = Ok (ss, c) /\ (length l <= length (flat ss))%nat /\
       forall et, ((forall x, In x l -> ttype_of x = ttype_of_ty S et) ->
        walk_elems S skippable true et l = true -> walk_elems S (fun _ => true) false et l = true ->
+       af_elems S et l = true ->
        forall f m r rcx acc, (forall x, In x l -> (vsize x <= f)%nat) -> (length l <= m)%nat -> idle rcx ->
          dec_elems (gen_decode_keep S p f) m et (Z.of_nat (length l)) (mkS (flat ss ++ r) rcx) acc
          = lift_view (let* ys := viewk_elems S p k c et l in Ok (rev acc ++ ys)) (mkS r rcx)).
   Proof.
     induction l as [|x t IH]; intros HF Hwt.
     - exists []. split; [reflexivity|]. split; [cbn; lia|].
-      intros et _ _ _ f m r rcx acc _ _ _. cbn [length Z.of_nat flat map concat app viewk_elems bind lift_view].
+      intros et _ _ _ _ f m r rcx acc _ _ _. cbn [length Z.of_nat flat map concat app viewk_elems bind lift_view].
       destruct m; cbn [dec_elems Z.leb Z.compare]; rewrite app_nil_r; reflexivity.
     - inversion HF as [|? ? Hx Hxs]; subst.
       pose proof (Hwt x (or_introl eq_refl)) as Hwx.
@@ -97,16 +92,17 @@ Section KeepW.
       exists (s1 ++ s2). split.
       { change (write_elems p k (x :: t)) with (write_val p k x ;; write_elems p k t). eapply wseq_ok; eauto. }
       split; [rewrite flat_app, app_length; cbn [length]; lia|].
-      intros et Hty Hw1_ Hw2_ f m r rcx acc Hv Hm Hi.
+      intros et Hty Hw1_ Hw2_ Haf f m r rcx acc Hv Hm Hi.
       rewrite walk_elems_cons in Hw1_, Hw2_. apply andb_prop in Hw1_ as [Hxa Hra]. apply andb_prop in Hw2_ as [Hxb Hrb].
+      cbn [af_elems] in Haf. apply andb_prop in Haf as [Hxc Hrc].
       destruct m as [|m]; [cbn [length] in Hm; lia|]. cbn [dec_elems].
       replace (Z.of_nat (length (x :: t)) <=? 0) with false by (cbn [length]; lia).
       rewrite flat_app, <- app_assoc.
-      rewrite (Hr1 et (Hty x (or_introl eq_refl)) Hxa Hxb f _ rcx (Hv x (or_introl eq_refl)) Hi).
+      rewrite (Hr1 et (Hty x (or_introl eq_refl)) Hxa Hxb Hxc f _ rcx (Hv x (or_introl eq_refl)) Hi).
       rewrite viewk_elems_cons.
       destruct (VK et x) as [y|e|q]; cbn [lift_view bind]; try reflexivity.
       replace (Z.of_nat (length (x :: t)) - 1) with (Z.of_nat (length t)) by (cbn [length]; lia).
-      rewrite (Hr2 et (fun y0 Hy => Hty y0 (or_intror Hy)) Hra Hrb f m r rcx (y :: acc)
+      rewrite (Hr2 et (fun y0 Hy => Hty y0 (or_intror Hy)) Hra Hrb Hrc f m r rcx (y :: acc)
                  (fun y0 Hy => Hv y0 (or_intror Hy)) ltac:(cbn [length] in Hm; lia) Hi).
       destruct (viewk_elems S p k c et t) as [ys|e|q]; cbn [lift_view bind rev]; try reflexivity.
       rewrite <- app_assoc. reflexivity.
@@ -117,6 +113,7 @@ Section KeepW.
     exists ss, write_pairs p k l c = Ok (ss, c) /\ (length l <= length (flat ss))%nat /\
       forall kt vt, ((forall q, In q l -> ttype_of (fst q) = ttype_of_ty S kt /\ ttype_of (snd q) = ttype_of_ty S vt) ->
        walk_pairs S skippable true kt vt l = true -> walk_pairs S (fun _ => true) false kt vt l = true ->
+       af_pairs S kt vt l = true ->
        forall f m r rcx acc, (forall q, In q l -> (vsize (fst q) <= f)%nat /\ (vsize (snd q) <= f)%nat) ->
          (length l <= m)%nat -> idle rcx ->
          dec_pairs (gen_decode_keep S p f) m kt vt (Z.of_nat (length l)) (mkS (flat ss ++ r) rcx) acc
@@ -124,7 +121,7 @@ Section KeepW.
   Proof.
     induction l as [|[a b] t IH]; intros HF Hwt.
     - exists []. split; [reflexivity|]. split; [cbn; lia|].
-      intros kt vt _ _ _ f m r rcx acc _ _ _. cbn [length Z.of_nat flat map concat app viewk_pairs bind lift_view].
+      intros kt vt _ _ _ _ f m r rcx acc _ _ _. cbn [length Z.of_nat flat map concat app viewk_pairs bind lift_view].
       destruct m; cbn [dec_pairs Z.leb Z.compare]; rewrite app_nil_r; reflexivity.
     - inversion HF as [|? ? [Ha Hb] Hxs]; subst. cbn [fst snd] in *.
       destruct (Hwt (a, b) (or_introl eq_refl)) as [Hwa Hwb]. cbn [fst snd] in *.
@@ -135,7 +132,8 @@ Section KeepW.
       { change (write_pairs p k ((a, b) :: t)) with (write_val p k a ;; write_val p k b ;; write_pairs p k t).
         eapply wseq_ok; [eapply wseq_ok|]; eauto. }
       split; [rewrite !flat_app, !app_length; cbn [length]; lia|].
-      intros kt vt Hty Hw1_ Hw2_ f m r rcx acc Hv Hm Hi.
+      intros kt vt Hty Hw1_ Hw2_ Haf f m r rcx acc Hv Hm Hi.
+      cbn [af_pairs] in Haf. apply andb_prop in Haf as [Haf Hrc]. apply andb_prop in Haf as [Hac Hbc].
       rewrite walk_pairs_cons in Hw1_, Hw2_.
       apply andb_prop in Hw1_ as [Hw1_ Hra]. apply andb_prop in Hw1_ as [Haa Hba].
       apply andb_prop in Hw2_ as [Hw2_ Hrb]. apply andb_prop in Hw2_ as [Hab Hbb].
@@ -148,12 +146,12 @@ Section KeepW.
       assert (E1 : Z.of_nat (length ((a, b) :: t)) - 1 = Z.of_nat (length t)) by (clear; cbn [length]; lia).
       cbn [dec_pairs]. rewrite E0.
       rewrite !flat_app, <- !app_assoc.
-      rewrite (Hr1 kt Hta Haa Hab f _ rcx Hva Hi). rewrite viewk_pairs_cons.
+      rewrite (Hr1 kt Hta Haa Hab Hac f _ rcx Hva Hi). rewrite viewk_pairs_cons.
       destruct (VK kt a) as [y|e|q]; cbn [lift_view bind]; try reflexivity.
-      rewrite (Hr2 vt Htb Hba Hbb f _ rcx Hvb Hi).
+      rewrite (Hr2 vt Htb Hba Hbb Hbc f _ rcx Hvb Hi).
       destruct (VK vt b) as [y0|e|q]; cbn [lift_view bind]; try reflexivity.
       rewrite E1.
-      rewrite (Hr3 kt vt (fun y1 Hy => Hty y1 (or_intror Hy)) Hra Hrb f m' r rcx ((y, y0) :: acc)
+      rewrite (Hr3 kt vt (fun y1 Hy => Hty y1 (or_intror Hy)) Hra Hrb Hrc f m' r rcx ((y, y0) :: acc)
                  (fun y1 Hy => Hv y1 (or_intror Hy)) Hm' Hi).
       destruct (viewk_pairs S p k c kt vt t) as [ys|e|q]; cbn [lift_view bind rev]; try reflexivity.
       rewrite <- app_assoc. reflexivity.
@@ -167,7 +165,7 @@ Section KeepW.
     destruct (w_coll_ok p a (Z.of_nat (length l)) c Het Hlen) as (s1 & Hw1 & Hr1).
     destruct (k_elems l HF (fun x Hx => proj1 (Hel x Hx))) as (s2 & Hw2 & Hl2 & Hr2).
     exists (s1 ++ s2). split; [destruct isl; cbn [write_val]; eapply wseq_ok; eauto|].
-    intros t Hty Hd Hn fuel r rcx Hf Hi.
+    intros t Hty Hd Hn Haf fuel r rcx Hf Hi.
     assert (Hsz : (vsize (VList a l) <= fuel)%nat) by (destruct isl; exact Hf).
     destruct fuel as [|f]; [pose proof (vsize_pos (VList a l)); lia|].
     rewrite gen_decode_keep_eq. unfold evo_dom, no_retyped_variant in Hd, Hn.
@@ -175,9 +173,10 @@ Section KeepW.
     { apply Hr1. rewrite app_length. lia. }
     assert (G : forall et, (l <> [] -> a = ttype_of_ty S et) ->
               walk_elems S skippable true et l = true -> walk_elems S (fun _ => true) false et l = true ->
+              af_elems S et l = true ->
               dec_elems (gen_decode_keep S p f) (Datatypes.S f) et (Z.of_nat (length l)) (mkS (flat s2 ++ r) rcx) []
               = lift_view (viewk_elems S p k c et l) (mkS r rcx)).
-    { intros et Ha W1 W2.
+    { intros et Ha W1 W2 W3.
       rewrite (Hr2 et); auto.
       - cbn [rev app]. destruct (viewk_elems S p k c et l); reflexivity.
       - intros x Hx. rewrite (proj2 (Hel x Hx)). apply Ha. intros ->. destruct Hx.
@@ -185,12 +184,12 @@ Section KeepW.
       - pose proof (vsize_list_len a l). lia. }
     rewrite flat_app, <- app_assoc.
     destruct isl; symmetry in Hty; cbn [ttype_of] in Hty.
-    - rewrite viewk_list. rewrite walk_list in Hd, Hn. tycases Hty.
+    - rewrite viewk_list. rewrite walk_list in Hd, Hn. rewrite af_list in Haf. tycases Hty.
       apply andb_prop in Hd as [Ha Hd]. apply andb_prop in Hn as [_ Hn].
       rewrite Hh. cbn [bind fst snd]. rewrite G; auto.
       + destruct (viewk_elems S p k c et l); reflexivity.
       + intros Hne. destruct l; [congruence|]. cbn [nonempty_is] in Ha. destruct (ttype_eqb_spec a (ttype_of_ty S et)); [auto|discriminate Ha].
-    - rewrite viewk_set. rewrite walk_set in Hd, Hn. tycases Hty.
+    - rewrite viewk_set. rewrite walk_set in Hd, Hn. rewrite af_set in Haf. tycases Hty.
       apply andb_prop in Hd as [Ha Hd]. apply andb_prop in Hn as [_ Hn].
       rewrite Hh. cbn [bind fst snd]. rewrite G; auto.
       + destruct (viewk_elems S p k c et l); reflexivity.
@@ -205,9 +204,9 @@ Section KeepW.
     destruct (k_pairs l HF (fun q Hq => conj (proj1 (Hel q Hq)) (proj1 (proj2 (proj2 (Hel q Hq))))))
       as (s2 & Hw2 & Hl2 & Hr2).
     exists (s1 ++ s2). split; [cbn [write_val]; eapply wseq_ok; eauto|].
-    intros t Hty Hd Hn fuel r rcx Hf Hi.
+    intros t Hty Hd Hn Haf fuel r rcx Hf Hi.
     destruct fuel as [|f]; [pose proof (vsize_pos (VMap ka va l)); lia|].
-    rewrite gen_decode_keep_eq, viewk_map. unfold evo_dom, no_retyped_variant in Hd, Hn. rewrite walk_map in Hd, Hn.
+    rewrite gen_decode_keep_eq, viewk_map. unfold evo_dom, no_retyped_variant in Hd, Hn. rewrite walk_map in Hd, Hn. rewrite af_map in Haf.
     symmetry in Hty. cbn [ttype_of] in Hty. tycases Hty.
     apply andb_prop in Hd as [Ha Hd]. apply andb_prop in Hn as [_ Hn].
     rewrite flat_app, <- app_assoc. rewrite Hr1 by (rewrite app_length; lia).
@@ -234,7 +233,7 @@ Section KeepW.
         (forall f, (vsize x <= f)%nat -> skippable x = true ->
            Gen.skip p f (ttype_of x) (mkS (flat s2 ++ r) rcx) = Ok (Z.of_nat (length (flat s2)), mkS r rcx)) /\
         (forall t f, ttype_of x = ttype_of_ty S t -> evo_dom S t x = true -> no_retyped_variant S t x = true ->
-           (vsize x <= f)%nat ->
+           arg_free S t x = true -> (vsize x <= f)%nat ->
            gen_decode_keep S p f t (mkS (flat s2 ++ r) rcx) = lift_view (VK t x) (mkS r rcx)).
   Proof.
     intros Hx Hwx Hid. destruct (Hx Hwx) as (s2 & Hw2 & Hr2). exists s2. split; [exact Hw2|].
@@ -253,7 +252,7 @@ Section KeepW.
     - intros f Hf Hs. destruct (written x s2 Hwx Hw2) as [_ Hrt].
       unfold Gen.skip. rewrite (Hrt f r rcx Hf Hi). cbn [bind]. rewrite vdepth_canon'.
       unfold skippable in Hs. rewrite Hs. cbn [rbuf]. rewrite app_length. f_equal. f_equal. lia.
-    - intros t f Hty Hd Hn Hf. apply Hr2; assumption.
+    - intros t f Hty Hd Hn Haf Hf. apply Hr2; assumption.
   Qed.
 
   Lemma flat_field h s2 s3 r : flat ((([Copy h] ++ s2) ++ []) ++ s3) ++ x00 :: r = h ++ flat s2 ++ flat s3 ++ x00 :: r.
@@ -269,12 +268,13 @@ Section KeepW.
   Lemma k_fields_keep dfs fs : Forall (fun q => KRT (snd q)) fs -> wtf fs = true ->
     exists ss, write_fields p k fs c = Ok (ss, c) /\
       (walk_fields S skippable true dfs fs = true -> walk_fields S (fun _ => true) false dfs fs = true ->
+       af_fields S dfs fs = true ->
        forall f n r rcx vars num unk, (forall q, In q fs -> (vsize (snd q) <= f)%nat) -> (length fs < n)%nat -> idle rcx ->
          dec_fields_keep S p f (gen_decode_keep S p f) n dfs false vars num unk (mkS (flat ss ++ x00 :: r) rcx)
          = lift_view (viewk_fields S p k c dfs true fs vars unk) (mkS r rcx)).
   Proof.
     induction fs as [|[id x] t IH]; intros HF Hwt.
-    - exists []. split; [reflexivity|]. intros _ _ f n r rcx vars num unk _ Hn Hi.
+    - exists []. split; [reflexivity|]. intros _ _ _ f n r rcx vars num unk _ Hn Hi.
       destruct n as [|n]; [cbn in Hn; lia|]. cbn [flat map concat app dec_fields_keep andb].
       destruct (stop_read r rcx Hi) as (oid & Hs). rewrite Hs. cbn [bind fst ttype_eqb].
       rewrite (r_field_stop_len_npf p _ (idle_npf r rcx Hi)). reflexivity.
@@ -286,7 +286,8 @@ Section KeepW.
       { change (write_fields p k ((id, x) :: t)) with
           (w_field_begin p (ttype_of x) id ;; write_val p k x ;; w_field_end p ;; write_fields p k t).
         eapply wseq_ok; eauto. }
-      intros W1 W2 f n r rcx vars num unk Hv Hn Hi.
+      intros W1 W2 W3 f n r rcx vars num unk Hv Hn Hi.
+      cbn [af_fields] in W3. apply andb_prop in W3 as [Hx3 Hr3']. unfold af_field in Hx3.
       rewrite walk_fields_cons in W1, W2. unfold walk_field in W1, W2.
       apply andb_prop in W1 as [Hx1 Hr1]. apply andb_prop in W2 as [Hx2 Hr2].
       destruct n as [|n]; [cbn in Hn; lia|]. cbn [dec_fields_keep andb]. rewrite flat_field.
@@ -296,26 +297,27 @@ Section KeepW.
       pose proof (Hv (id, x) (or_introl eq_refl)) as Hvx. cbn [snd] in Hvx.
       destruct (match_field S dfs 0 (Some id) (ttype_of x)) as [[i fl]|] eqn:Em.
       + destruct (match_field_inv _ _ _ _ _ _ _ Em) as (_ & _ & Hft).
-        rewrite (Hdec (f_ty fl) f (eq_sym Hft) Hx1 Hx2 Hvx).
+        rewrite (Hdec (f_ty fl) f (eq_sym Hft) Hx1 Hx2 Hx3 Hvx).
         destruct (VK (f_ty fl) x) as [y|e|q]; cbn [lift_view bind]; try reflexivity.
         rewrite (r_field_end_len_npf p _ (idle_npf _ rcx Hi)). cbn [bind fst snd].
-        apply Hr3; [exact Hr1|exact Hr2|intros q0 Hq0; apply Hv; right; exact Hq0|cbn [length] in Hn; lia|exact Hi].
+        apply Hr3; [exact Hr1|exact Hr2|exact Hr3'|intros q0 Hq0; apply Hv; right; exact Hq0|cbn [length] in Hn; lia|exact Hi].
       + rewrite (Hskip f Hvx Hx1). cbn [bind rbuf].
         rewrite (r_field_end_len_npf p _ (idle_npf _ rcx Hi)). cbn [bind fst snd].
         rewrite app_assoc, firstn_exact by (rewrite app_length, hdrb_length; lia).
-        rewrite <- Hfb. apply Hr3; [exact Hr1|exact Hr2|intros q0 Hq0; apply Hv; right; exact Hq0|cbn [length] in Hn; lia|exact Hi].
+        rewrite <- Hfb. apply Hr3; [exact Hr1|exact Hr2|exact Hr3'|intros q0 Hq0; apply Hv; right; exact Hq0|cbn [length] in Hn; lia|exact Hi].
   Qed.
 
   (* ----- struct fields, declaration that does not keep (the plain loop over the keep decoders) ----- *)
   Lemma k_fields_plain dfs fs : Forall (fun q => KRT (snd q)) fs -> wtf fs = true ->
     exists ss, write_fields p k fs c = Ok (ss, c) /\
       (walk_fields S skippable true dfs fs = true -> walk_fields S (fun _ => true) false dfs fs = true ->
+       af_fields S dfs fs = true ->
        forall f n r rcx vars unk, (forall q, In q fs -> (vsize (snd q) <= f)%nat) -> (length fs < n)%nat -> idle rcx ->
          dec_fields S p f (gen_decode_keep S p f) n dfs vars (mkS (flat ss ++ x00 :: r) rcx)
          = lift_view (let* r0 := viewk_fields S p k c dfs false fs vars unk in Ok (fst r0)) (mkS r rcx)).
   Proof.
     induction fs as [|[id x] t IH]; intros HF Hwt.
-    - exists []. split; [reflexivity|]. intros _ _ f n r rcx vars unk _ Hn Hi.
+    - exists []. split; [reflexivity|]. intros _ _ _ f n r rcx vars unk _ Hn Hi.
       destruct n as [|n]; [cbn in Hn; lia|]. cbn [flat map concat app dec_fields].
       destruct (stop_read r rcx Hi) as (oid & Hs). rewrite Hs. cbn [bind fst ttype_eqb].
       rewrite (r_field_stop_len_npf p _ (idle_npf r rcx Hi)). reflexivity.
@@ -327,7 +329,8 @@ Section KeepW.
       { change (write_fields p k ((id, x) :: t)) with
           (w_field_begin p (ttype_of x) id ;; write_val p k x ;; w_field_end p ;; write_fields p k t).
         eapply wseq_ok; eauto. }
-      intros W1 W2 f n r rcx vars unk Hv Hn Hi.
+      intros W1 W2 W3 f n r rcx vars unk Hv Hn Hi.
+      cbn [af_fields] in W3. apply andb_prop in W3 as [Hx3 Hr3']. unfold af_field in Hx3.
       rewrite walk_fields_cons in W1, W2. unfold walk_field in W1, W2.
       apply andb_prop in W1 as [Hx1 Hr1]. apply andb_prop in W2 as [Hx2 Hr2].
       destruct n as [|n]; [cbn in Hn; lia|]. cbn [dec_fields]. rewrite flat_field.
@@ -337,13 +340,13 @@ Section KeepW.
       pose proof (Hv (id, x) (or_introl eq_refl)) as Hvx. cbn [snd] in Hvx.
       destruct (match_field S dfs 0 (Some id) (ttype_of x)) as [[i fl]|] eqn:Em.
       + destruct (match_field_inv _ _ _ _ _ _ _ Em) as (_ & _ & Hft).
-        rewrite (Hdec (f_ty fl) f (eq_sym Hft) Hx1 Hx2 Hvx).
+        rewrite (Hdec (f_ty fl) f (eq_sym Hft) Hx1 Hx2 Hx3 Hvx).
         destruct (VK (f_ty fl) x) as [y|e|q]; cbn [lift_view bind]; try reflexivity.
         rewrite (r_field_end_len_npf p _ (idle_npf _ rcx Hi)). cbn [bind].
-        apply Hr3; [exact Hr1|exact Hr2|intros q0 Hq0; apply Hv; right; exact Hq0|cbn [length] in Hn; lia|exact Hi].
+        apply Hr3; [exact Hr1|exact Hr2|exact Hr3'|intros q0 Hq0; apply Hv; right; exact Hq0|cbn [length] in Hn; lia|exact Hi].
       + rewrite (Hskip f Hvx Hx1). cbn [bind].
         rewrite (r_field_end_len_npf p _ (idle_npf _ rcx Hi)). cbn [bind].
-        apply Hr3; [exact Hr1|exact Hr2|intros q0 Hq0; apply Hv; right; exact Hq0|cbn [length] in Hn; lia|exact Hi].
+        apply Hr3; [exact Hr1|exact Hr2|exact Hr3'|intros q0 Hq0; apply Hv; right; exact Hq0|cbn [length] in Hn; lia|exact Hi].
   Qed.
 
   (* ----- union variants ----- *)
@@ -376,12 +379,13 @@ Section KeepW.
   Lemma k_variants_keep vs fs : Forall (fun q => KRT (snd q)) fs -> wtf fs = true ->
     exists ss, write_fields p k fs c = Ok (ss, c) /\
       (walk_variants S skippable true vs fs = true -> walk_variants S (fun _ => true) false vs fs = true ->
+       af_variants S vs fs = true ->
        forall f n r rcx ret, (forall q, In q fs -> (vsize (snd q) <= f)%nat) -> (length fs < n)%nat -> idle rcx ->
          dec_variants_keep S p f (gen_decode_keep S p f) n vs ret (mkS (flat ss ++ x00 :: r) rcx)
          = lift_view (viewk_variantsk S p k c vs fs ret) (mkS r rcx)).
   Proof.
     induction fs as [|[id x] t IH]; intros HF Hwt.
-    - exists []. split; [reflexivity|]. intros _ _ f n r rcx ret _ Hn Hi.
+    - exists []. split; [reflexivity|]. intros _ _ _ f n r rcx ret _ Hn Hi.
       destruct n as [|n]; [cbn in Hn; lia|]. cbn [flat map concat app dec_variants_keep].
       destruct (stop_read r rcx Hi) as (oid & Hs). rewrite Hs. cbn [bind fst ttype_eqb].
       rewrite (r_field_stop_len_npf p _ (idle_npf r rcx Hi)). reflexivity.
@@ -393,7 +397,8 @@ Section KeepW.
       { change (write_fields p k ((id, x) :: t)) with
           (w_field_begin p (ttype_of x) id ;; write_val p k x ;; w_field_end p ;; write_fields p k t).
         eapply wseq_ok; eauto. }
-      intros W1 W2 f n r rcx ret Hv Hn Hi.
+      intros W1 W2 W3 f n r rcx ret Hv Hn Hi.
+      cbn [af_variants] in W3. apply andb_prop in W3 as [Hx3 Hr3']. unfold af_variant in Hx3.
       rewrite walk_variants_cons in W1, W2. apply andb_prop in W1 as [Hx1 Hr1]. apply andb_prop in W2 as [Hx2 Hr2].
       destruct n as [|n]; [cbn in Hn; lia|]. cbn [dec_variants_keep]. rewrite flat_field.
       destruct (Hrd (flat s3 ++ x00 :: r) rcx Hi) as (Hb & Hskip & Hdec). rewrite Hb. cbn [bind fst snd].
@@ -402,14 +407,14 @@ Section KeepW.
       pose proof (Hv (id, x) (or_introl eq_refl)) as Hvx. cbn [snd] in Hvx.
       assert (Hrest : forall ret', dec_variants_keep S p f (gen_decode_keep S p f) n vs ret' (mkS (flat s3 ++ x00 :: r) rcx)
                                    = lift_view (viewk_variantsk S p k c vs t ret') (mkS r rcx)).
-      { intros ret'. apply Hr3; [exact Hr1|exact Hr2|intros q0 Hq0; apply Hv; right; exact Hq0|cbn [length] in Hn; lia|exact Hi]. }
+      { intros ret'. apply Hr3; [exact Hr1|exact Hr2|exact Hr3'|intros q0 Hq0; apply Hv; right; exact Hq0|cbn [length] in Hn; lia|exact Hi]. }
       fold (variant_by_id S vs id).
       destruct (variant_by_id S vs id) as [vt|] eqn:Evb.
       + destruct (variant_typed _ _ _ _ Hx2 Evb) as (Hft & Hfv & Hnv).
         unfold variant_by_id in Evb. rewrite Hfv, Hnv in Evb |- *.
         destruct ret; try reflexivity.
         rewrite (Hdec vt f Hft (variant_walk _ _ _ _ _ _ Hx1 ltac:(unfold variant_by_id; rewrite Hfv, Hnv; reflexivity) Hft)
-                   (variant_walk _ _ _ _ _ _ Hx2 ltac:(unfold variant_by_id; rewrite Hfv, Hnv; reflexivity) Hft) Hvx).
+                   (variant_walk _ _ _ _ _ _ Hx2 ltac:(unfold variant_by_id; rewrite Hfv, Hnv; reflexivity) Hft) Hx3 Hvx).
         destruct (VK vt x) as [y|e|q]; cbn [lift_view bind]; try reflexivity. apply Hrest.
       + pose proof (variant_dropped _ _ _ Hx1 Evb) as Hsk.
         unfold variant_by_id in Evb.
@@ -427,12 +432,13 @@ Section KeepW.
   Lemma k_variants_plain vs fs : Forall (fun q => KRT (snd q)) fs -> wtf fs = true ->
     exists ss, write_fields p k fs c = Ok (ss, c) /\
       (walk_variants S skippable true vs fs = true -> walk_variants S (fun _ => true) false vs fs = true ->
+       af_variants S vs fs = true ->
        forall f n r rcx ret, (forall q, In q fs -> (vsize (snd q) <= f)%nat) -> (length fs < n)%nat -> idle rcx ->
          dec_variants S p f (gen_decode_keep S p f) n vs ret (mkS (flat ss ++ x00 :: r) rcx)
          = lift_view (viewk_variants S p k c vs fs ret) (mkS r rcx)).
   Proof.
     induction fs as [|[id x] t IH]; intros HF Hwt.
-    - exists []. split; [reflexivity|]. intros _ _ f n r rcx ret _ Hn Hi.
+    - exists []. split; [reflexivity|]. intros _ _ _ f n r rcx ret _ Hn Hi.
       destruct n as [|n]; [cbn in Hn; lia|]. cbn [flat map concat app dec_variants].
       destruct (stop_read r rcx Hi) as (oid & Hs). rewrite Hs. cbn [bind fst ttype_eqb].
       rewrite (r_field_stop_len_npf p _ (idle_npf r rcx Hi)). reflexivity.
@@ -444,7 +450,8 @@ Section KeepW.
       { change (write_fields p k ((id, x) :: t)) with
           (w_field_begin p (ttype_of x) id ;; write_val p k x ;; w_field_end p ;; write_fields p k t).
         eapply wseq_ok; eauto. }
-      intros W1 W2 f n r rcx ret Hv Hn Hi.
+      intros W1 W2 W3 f n r rcx ret Hv Hn Hi.
+      cbn [af_variants] in W3. apply andb_prop in W3 as [Hx3 Hr3']. unfold af_variant in Hx3.
       rewrite walk_variants_cons in W1, W2. apply andb_prop in W1 as [Hx1 Hr1]. apply andb_prop in W2 as [Hx2 Hr2].
       destruct n as [|n]; [cbn in Hn; lia|]. cbn [dec_variants]. rewrite flat_field.
       destruct (Hrd (flat s3 ++ x00 :: r) rcx Hi) as (Hb & Hskip & Hdec). rewrite Hb. cbn [bind fst snd].
@@ -453,12 +460,12 @@ Section KeepW.
       pose proof (Hv (id, x) (or_introl eq_refl)) as Hvx. cbn [snd] in Hvx.
       assert (Hrest : forall ret', dec_variants S p f (gen_decode_keep S p f) n vs ret' (mkS (flat s3 ++ x00 :: r) rcx)
                                    = lift_view (viewk_variants S p k c vs t ret') (mkS r rcx)).
-      { intros ret'. apply Hr3; [exact Hr1|exact Hr2|intros q0 Hq0; apply Hv; right; exact Hq0|cbn [length] in Hn; lia|exact Hi]. }
+      { intros ret'. apply Hr3; [exact Hr1|exact Hr2|exact Hr3'|intros q0 Hq0; apply Hv; right; exact Hq0|cbn [length] in Hn; lia|exact Hi]. }
       destruct (variant_by_id S vs id) as [vt|] eqn:Evb.
       + destruct (variant_typed _ _ _ _ Hx2 Evb) as (Hft & Hfv & Hnv).
         rewrite Hfv, Hnv.
         destruct ret; try reflexivity.
-        rewrite (Hdec vt f Hft (variant_walk _ _ _ _ _ _ Hx1 Evb Hft) (variant_walk _ _ _ _ _ _ Hx2 Evb Hft) Hvx).
+        rewrite (Hdec vt f Hft (variant_walk _ _ _ _ _ _ Hx1 Evb Hft) (variant_walk _ _ _ _ _ _ Hx2 Evb Hft) Hx3 Hvx).
         destruct (VK vt x) as [y|e|q]; cbn [lift_view bind]; try reflexivity. apply Hrest.
       + pose proof (variant_dropped _ _ _ Hx1 Evb) as Hsk.
         unfold variant_by_id in Evb.
@@ -491,23 +498,24 @@ Section KeepW.
     intros HF Hwt. rewrite wt_struct in Hwt.
     destruct (k_fields_plain [] fs HF Hwt) as (s2 & Hw2 & _).
     exists ((([] ++ s2) ++ [Copy [x00]]) ++ []). split; [apply struct_write; exact Hw2|].
-    intros t Hty Hd Hn fuel r rcx Hf Hi.
+    intros t Hty Hd Hn Haf fuel r rcx Hf Hi.
     destruct fuel as [|f]; [pose proof (vsize_pos (VStruct fs)); lia|].
     rewrite gen_decode_keep_eq, viewk_struct. unfold evo_dom, no_retyped_variant in Hd, Hn. rewrite walk_struct in Hd, Hn.
+    rewrite af_struct in Haf.
     symmetry in Hty. cbn [ttype_of] in Hty. rewrite struct_flat.
     assert (Hsz : forall q, In q fs -> (vsize (snd q) <= f)%nat).
     { intros q Hq. destruct (vsize_struct_bound fs q Hq). lia. }
     assert (Hlen : (length fs < Datatypes.S f)%nat) by (pose proof (vsize_struct_len fs); lia).
     tycases Hty; try reflexivity.
     - (* struct *)
-      rewrite (bin_struct_begin_r p _ Hbin). cbn [bind]. destruct kp.
-      + rewrite (nka_lookup _ _ _ Elk).
+      rewrite (bin_struct_begin_r p _ Hbin). cbn [bind]. apply andb_prop in Haf as [Hia Haf]. destruct kp.
+      + assert (ia = false) as -> by (destruct ia; [discriminate Hia|reflexivity]).
         destruct (k_fields_keep dfs fs HF Hwt) as (s2' & Hw2' & Hr2). rewrite Hw2 in Hw2'. injection Hw2' as <-.
-        rewrite (Hr2 Hd Hn f _ r rcx _ _ _ Hsz Hlen Hi).
+        rewrite (Hr2 Hd Hn Haf f _ r rcx _ _ _ Hsz Hlen Hi).
         destruct (viewk_fields S p k c dfs true fs (map init_var dfs) []) as [[vars unk]|e|q]; cbn [lift_view bind]; try reflexivity.
         rewrite (bin_struct_end_r p _ Hbin). cbn [bind fst snd]. destruct (finish_fields dfs vars); reflexivity.
       + destruct (k_fields_plain dfs fs HF Hwt) as (s2' & Hw2' & Hr2). rewrite Hw2 in Hw2'. injection Hw2' as <-.
-        rewrite (Hr2 Hd Hn f _ r rcx _ [] Hsz Hlen Hi).
+        rewrite (Hr2 Hd Hn Haf f _ r rcx _ [] Hsz Hlen Hi).
         assert (Eunk : forall fs0 vars unk vars' unk', viewk_fields S p k c dfs false fs0 vars unk = Ok (vars', unk') -> unk' = unk).
         { induction fs0 as [|[i y] r0 IH0]; intros vars unk vars' unk' H0; [injection H0 as _ <-; reflexivity|].
           rewrite viewk_fields_cons in H0. destruct (match_field S dfs 0 (Some i) (ttype_of y)) as [[j fl]|]; [|eauto].
@@ -518,12 +526,12 @@ Section KeepW.
     - (* union *)
       rewrite (bin_struct_begin_r p _ Hbin). cbn [bind]. destruct kp.
       + destruct (k_variants_keep vs fs HF Hwt) as (s2' & Hw2' & Hr2). rewrite Hw2 in Hw2'. injection Hw2' as <-.
-        rewrite (Hr2 Hd Hn f _ r rcx _ Hsz Hlen Hi).
+        rewrite (Hr2 Hd Hn Haf f _ r rcx _ Hsz Hlen Hi).
         destruct (viewk_variantsk S p k c vs fs UNone) as [ret|e|q]; cbn [lift_view bind]; try reflexivity.
         rewrite (bin_struct_end_r p _ Hbin). cbn [bind]. unfold union_resultk.
         destruct ret; try reflexivity. destruct vok; [|reflexivity]. destruct vs as [|[id0 t0] vs']; reflexivity.
       + destruct (k_variants_plain vs fs HF Hwt) as (s2' & Hw2' & Hr2). rewrite Hw2 in Hw2'. injection Hw2' as <-.
-        rewrite (Hr2 Hd Hn f _ r rcx _ Hsz Hlen Hi).
+        rewrite (Hr2 Hd Hn Haf f _ r rcx _ Hsz Hlen Hi).
         destruct (viewk_variants S p k c vs fs None) as [ret|e|q]; cbn [lift_view bind]; try reflexivity.
         rewrite (bin_struct_end_r p _ Hbin). cbn [bind]. unfold union_result.
         destruct ret as [[id y]|]; try reflexivity. destruct vok; [|reflexivity]. destruct vs as [|[id0 t0] vs']; reflexivity.
@@ -541,15 +549,15 @@ End KeepW.
 
 (* ---------- C13, decode side ---------- *)
 Theorem keep_decode : forall S p k T tv,
-  no_keep_arg S = true -> p <> PCompact ->
+  p <> PCompact ->
   wt tv = true -> ttype_of tv = ttype_of_ty S T ->
-  evo_dom S T tv = true -> no_retyped_variant S T tv = true ->
+  evo_dom S T tv = true -> no_retyped_variant S T tv = true -> arg_free S T tv = true ->
   forall c, w_pend c = None ->
   exists ss, write_val p k tv c = Ok (ss, c) /\
     forall fuel r rcx, (vsize tv <= fuel)%nat -> idle rcx ->
       gen_decode_keep S p fuel T (mkS (flat ss ++ r) rcx) = lift_view (viewk S p k c T tv) (mkS r rcx).
 Proof.
-  intros S p k T tv Hnka Hbin Hwt Hty Hd Hn c Hc.
-  destruct (KRT_all S Hnka p Hbin k c Hc tv Hwt) as (ss & Hw & Hr).
+  intros S p k T tv Hbin Hwt Hty Hd Hn Haf c Hc.
+  destruct (KRT_all S p Hbin k c Hc tv Hwt) as (ss & Hw & Hr).
   exists ss. split; [exact Hw|]. intros fuel r rcx Hf Hi. apply Hr; assumption.
 Qed.
